@@ -110,6 +110,12 @@ type cfg struct {
 	// strongly the enumerated steps prefer mutations that shrink the log.
 	Prelude    int
 	ShrinkBias int
+	// C08: number of distinct idempotency keys bulk-loaded into channel 0 before
+	// the history (0 = off). The regime crosses every sizing constant of the
+	// negative membership filter with margin (primary capacity 384, the overflow
+	// layer, anything derived from them), then forces a filter rebuild and
+	// re-sends keys from the whole index order.
+	ManyKeys int
 }
 
 func drawStoreCfg(r *simkit.Run) cfg {
@@ -166,6 +172,15 @@ func drawStoreCfg(r *simkit.Run) cfg {
 			}
 			c.Ops = 50 + tp.Intn(30)
 			c.Collide = 3
+		} else if tp.Intn(8) == 7 {
+			c.ManyKeys = 1300 + tp.Intn(1201)
+			c.Channels = 1 + tp.Intn(2)
+			c.Flavours = c.Flavours[:c.Channels]
+			if c.Flavours[0] == flExact {
+				c.Flavours[0] = flCompat
+			}
+			c.Ops = 6 + tp.Intn(10)
+			c.CheckEvery = 1 << 30
 		}
 	case "C09":
 		c.Ops = 2 + tp.Intn(6)
@@ -412,7 +427,7 @@ func runStore(t *testing.T, r *simkit.Run) {
 		"window_us": c.Window.Microseconds(), "max_req": c.MaxReq, "shards": c.Shards, "warm": c.Warm, "nofaults": c.NoFaults,
 		"collide": c.Collide, "alphabet": c.Alphabet, "saturate": c.Saturate, "empty_typed": c.EmptyTyped, "trunc_slack": c.TruncSlack,
 		"crash": c.Crash, "crash_open": c.CrashOpen, "torn_pct": c.TornPct, "group_w": c.GroupW, "big": c.BigPayload,
-		"prelude": c.Prelude, "shrink_bias": c.ShrinkBias}
+		"prelude": c.Prelude, "shrink_bias": c.ShrinkBias, "many_keys": c.ManyKeys}
 	r.Logf("cfg %v", simkitConfigLine(r.Config))
 	w := &world{t: t, r: r, c: c, ctx: context.Background(), disk: newSimDisk(), liveIDs: map[uint64]idLoc{}, nextID: 1000, crashSeen: map[string][]int{}}
 	w.disk.tornPct = c.TornPct
@@ -506,6 +521,10 @@ func (w *world) run() {
 		}
 		w.r.Logf("crash enumeration starts after step %d", w.step)
 		w.disk.cloning = true
+	}
+	if w.c.ManyKeys > 0 {
+		w.manyKeysPhase()
+		simkit.Wait()
 	}
 	for op := 0; op < w.c.Ops && !w.stop(); op++ {
 		w.mu.Lock()
